@@ -415,6 +415,21 @@ def saneget (penv : Exps) (sec : Section) (row : OptRow) (locals : List (String 
   | .ok (.str s) => if row.doExpand then (expand (dupdate penv E) s).map .str else .ok (.str s)
   | .ok r => .ok r
 
+/-- Python truthiness of a looked-up value -/
+def rawFalsy : Raw → Bool
+  | .none => true
+  | .str s => s.isEmpty
+  | .int n => n == 0
+  | .bool b => !b
+  | .auto => false
+
+/-- `get(...) or '<text>'` where the source has it (GENERATED `optEmptyFallback`; the unchanged source has no such lookup):
+    a looked-up value that is empty (falsy) is replaced by <text> before the converter sees it -/
+def orFallback (table : List (String × String × String)) (scope opt : String) (r : Raw) : Raw :=
+  match table.find? fun t => t.1 == scope && t.2.1 == opt with
+  | some t => if rawFalsy r then .str t.2.2 else r
+  | none => r
+
 /-- `conv(get(section, 'opt', default))` as the table says -/
 def getField (penv : Exps) (scope : String) (sec : Section) (opt : String) (locals : List (String × Raw)) (E : Exps) :
     Except String CVal :=
@@ -423,7 +438,7 @@ def getField (penv : Exps) (scope : String) (sec : Section) (opt : String) (loca
   | some row =>
     match saneget penv sec row locals E with
     | .error e => .error e
-    | .ok r => convert row.conv r
+    | .ok r => convert row.conv (orFallback optEmptyFallback scope opt r)
 
 def asInt : CVal → Except String Int
   | .int n => .ok n
@@ -559,12 +574,15 @@ deriving DecidableEq, Repr
 
 /-- the parser-level environment of one call: ENV_ expansions, directories, users -/
 structure Ctx where
-  penv : Exps               -- parser.expansions (= environ_expansions, live)
+  penv : Exps               -- parser.expansions: what every parser.saneget expands with
   here : String
   hostNode : String
   dirs : List String
   users : List (String × Int)
   handlers : List String
+  /-- self.environ_expansions (what `expansions.update(self.environ_expansions)` in the numprocs loop adds).  The unchanged
+      source binds `parser.expansions` to this very dictionary (GENERATED `rcParserSharesEnviron`), so the two agree. -/
+  senv : Exps := penv
 
 /-- `common_expansions` at the start of `_processes_from_section` -/
 def commonExps (cx : Ctx) (programName groupName : String) : Exps :=
@@ -649,7 +667,7 @@ def applyStep (cx : Ctx) (pre : Pre) (num : Int) (s : XS) : ExpStep → XS
   | .copy => { common := s.common, cur := s.common, aliased := false }
   | .setProcessNum => s.mut fun e => dset e "process_num" (.i num)
   | .setNumprocs => s.mut fun e => dset e "numprocs" (.i pre.numprocs)
-  | .resetEnviron => s.mut fun e => dupdate e cx.penv
+  | .resetEnviron => s.mut fun e => dupdate e cx.senv
 
 /-- in front of the loop: `common_expansions` exists, `expansions` is bound by the generated statements (if any) -/
 def preLoopXS (cx : Ctx) (pre : Pre) (C : Exps) : XS :=
@@ -1049,6 +1067,30 @@ deriving DecidableEq, Repr
 /-- [supervisord] options whose conversion touches the file system or the logging module: not modelled -/
 def supUnsupported : List String := ["directory", "logfile", "loglevel", "pidfile", "childlogdir"]
 
+/-! Which ENV_ names a section's lookups see.  `read_config` adds the [supervisord] environment to
+    `self.environ_expansions` (`senv` below = the dictionary after that loop, `penv0` = before it).  The parser expands with
+    `parser.expansions`; whether that is the same dictionary object (so that the additions are seen) or a snapshot taken
+    before, and whether a family of sections is parsed after the loop, is GENERATED (`rcParserSharesEnviron`,
+    `rcGroupsAfterEnvMerge`, `rcServersAfterEnvMerge`). -/
+
+/-- self.environ_expansions at the time a family of sections is parsed -/
+def environAt (afterMerge : Bool) (penv0 senv : Exps) : Exps := if afterMerge then senv else penv0
+
+/-- parser.expansions at that time -/
+def parserExps (shares afterMerge : Bool) (penv0 senv : Exps) : Exps :=
+  if shares then environAt afterMerge penv0 senv else penv0
+
+/-- the context `process_groups_from_parser` runs in -/
+def readCtx (ini : Ini) (supEnv : KV) : Ctx :=
+  { penv := parserExps rcParserSharesEnviron rcGroupsAfterEnvMerge (strVals ini.environ) (envExps (strVals ini.environ) supEnv),
+    senv := environAt rcGroupsAfterEnvMerge (strVals ini.environ) (envExps (strVals ini.environ) supEnv),
+    here := ini.here, hostNode := ini.hostNode, dirs := ini.dirs, users := ini.users, handlers := ini.handlers }
+
+/-- what the lookups of `server_configs_from_parser` ([unix_http_server] / [inet_http_server]: file, port, username,
+    password, chmod, chown) expand with, besides `here` -/
+def serverExps (ini : Ini) (supEnv : KV) : Exps :=
+  parserExps rcParserSharesEnviron rcServersAfterEnvMerge (strVals ini.environ) (envExps (strVals ini.environ) supEnv)
+
 def readConfig (ini : Ini) : Except String Result := do
   let sec ← match ini.find "supervisord" with
     | some s => pure s
@@ -1071,10 +1113,7 @@ def readConfig (ini : Ini) : Except String Result := do
   -- read unexpanded (do_expand=False in the generated table), then expanded once with here / host_node_name / ENV_
   let envStr ← expand (dupdate [("here", Val.s ini.here), ("host_node_name", Val.s ini.hostNode)] penv0) envStr0
   let supEnv ← dictOfKeyValuePairs envStr
-  let penv := envExps penv0 supEnv
-  let cx : Ctx := { penv, here := ini.here, hostNode := ini.hostNode, dirs := ini.dirs, users := ini.users,
-                    handlers := ini.handlers }
-  let groups ← processGroupsFromParser cx ini
+  let groups ← processGroupsFromParser (readCtx ini supEnv) ini
   let fin := envAfterLoop rcEnvCopied supEnv groups
   pure { sup := { minfds, minprocs, umask, logfile_maxbytes, logfile_backups, identifier, nodaemon, silent,
                   nocleanup, strip_ansi, environment := fin },
